@@ -55,15 +55,17 @@ type (
 )
 
 type Clause struct {
-	Lemma bool   // exit lemma (assumed after being obliged)
-	Site  int    // exit clauses: ordinal of the return statement they apply to (0: all)
-	Kind  string // requires ensures modifies invariant decreases panics assume inline exit
-	Label string
-	Loop  int
-	E     Expr
-	Mods  []Expr
-	Text  string
-	Line  int
+	Forget string // cut: ghost state replaced by an unknown after the proof ("pen")
+	Anchor string // cut: source text identifying the statement the clause is attached to
+	Lemma  bool   // exit lemma (assumed after being obliged)
+	Site   int    // exit clauses: ordinal of the return statement they apply to (0: all)
+	Kind   string // requires ensures modifies invariant decreases panics assume inline exit
+	Label  string
+	Loop   int
+	E      Expr
+	Mods   []Expr
+	Text   string
+	Line   int
 }
 
 type VocabClause struct {
@@ -87,21 +89,26 @@ type PredDecl struct {
 }
 
 type FuncContract struct {
-	Pkg         string // package path relative key (import path)
-	Recv        string // receiver type name, "" for functions; leading * kept
-	Name        string
-	Clauses     []*Clause
-	File        string
-	Line        int
-	Header      string
-	BitWidth    int           // symbolic & | ^ &^ on signed ints are expanded over this many bits; operands are proved to lie in [0, 2^n)
-	Vocab       []VocabClause // SGR vocabulary inclusion checks
-	Tokens      bool          // interpret writes of constant escape-sequence templates as updates of the ghost pen
-	Overflow    bool          // generate signed-overflow obligations for + - * in this function
-	Logs        []LogClause   // ghost-log primitives: calling this function appends a value to a named ghost log
-	MapContents []string      // init-only maps whose lookups are expanded over the entries of their literal ("*": all)
-	Extern      bool          // assumed contract of a function outside the module
-	Unfold      []string      // recursive definitions whose unfolding axioms are given to the solver (default: none, applications stay opaque)
+	Pkg           string // package path relative key (import path)
+	Recv          string // receiver type name, "" for functions; leading * kept
+	Name          string
+	Clauses       []*Clause
+	File          string
+	Line          int
+	Header        string
+	BitWidth      int                 // symbolic & | ^ &^ on signed ints are expanded over this many bits; operands are proved to lie in [0, 2^n)
+	Vocab         []VocabClause       // SGR vocabulary inclusion checks
+	NoLocal       bool                // skip local queries
+	OwnGhosts     bool                // ghost fields change only on objects allocated by the function (assumed)
+	Cursor        bool                // tokens cursor: track the terminal's cursor position
+	Tokens        bool                // interpret writes of constant escape-sequence templates as updates of the ghost pen
+	Overflow      bool                // generate signed-overflow obligations for + - * in this function
+	Logs          []LogClause         // ghost-log primitives: calling this function appends a value to a named ghost log
+	Deterministic string              // name of the ufun that stands for this function's result in specifications
+	Uses          map[string][]string // callee local key -> the labels of its postconditions assumed at calls here (absent: all)
+	MapContents   []string            // init-only maps whose lookups are expanded over the entries of their literal ("*": all)
+	Extern        bool                // assumed contract of a function outside the module
+	Unfold        []string            // recursive definitions whose unfolding axioms are given to the solver (default: none, applications stay opaque)
 }
 
 func (fc *FuncContract) Key() string {
@@ -466,7 +473,7 @@ func (p *parser) primary() Expr {
 
 var blockRe = regexp.MustCompile(`(?s)/\*@(.*?)@\*/`)
 var clauseKw = map[string]bool{"requires": true, "ensures": true, "modifies": true, "loop": true, "panics": true,
-	"assume": true, "exit": true, "func": true, "pred": true, "spec": true, "inline": true, "noinline": true, "pure": true, "ghost": true, "rec": true, "bits": true, "unfold": true, "logs": true, "overflow": true, "freshresult": true, "lemma": true, "bitwidth": true, "ufun": true, "purefield": true, "tokens": true, "bvtype": true, "vocab": true, "extern": true, "sets": true, "logfield": true, "mapcontents": true}
+	"assume": true, "exit": true, "func": true, "pred": true, "spec": true, "inline": true, "noinline": true, "pure": true, "ghost": true, "rec": true, "bits": true, "unfold": true, "logs": true, "overflow": true, "freshresult": true, "lemma": true, "bitwidth": true, "ufun": true, "purefield": true, "tokens": true, "bvtype": true, "vocab": true, "extern": true, "sets": true, "logfield": true, "mapcontents": true, "deterministic": true, "cut": true, "uses": true, "ownghosts": true, "nolocal": true}
 
 // ReadContracts parses every contracts_verif*.go file of a package directory.
 func ReadContracts(dir string) (*PkgContracts, error) {
@@ -727,6 +734,66 @@ func (pc *PkgContracts) parseBlock(body, file string, line0 int) error {
 				cl.Mods = []Expr{lhs}
 				cur.Clauses = append(cur.Clauses, cl)
 				continue
+			case "cut":
+				// cut "<source text>" label: expr -- proved where the first statement whose source line contains the text
+				// begins, then assumed from there on (a stepping stone that shortens the paths later obligations must consider)
+				t := strings.TrimSpace(text)
+				if !strings.HasPrefix(t, "\"") {
+					return errf("cut \"<source text>\" label: expr")
+				}
+				end := strings.Index(t[1:], "\"")
+				if end < 0 {
+					return errf("cut: unterminated anchor text")
+				}
+				cl.Anchor = t[1 : 1+end]
+				text = strings.TrimSpace(t[end+2:])
+				// "<text>" @N : the N-th source line (from 1) containing the text
+				if strings.HasPrefix(text, "@") {
+					f := strings.Fields(text)
+					n, err := strconv.Atoi(f[0][1:])
+					if err != nil || n < 1 {
+						return errf("cut \"<text>\" @N ...")
+					}
+					cl.Site = n
+					text = strings.TrimSpace(text[len(f[0]):])
+				}
+				// cut "..." forget pen label: expr -- after the proof the pen is replaced by an unknown one of which only
+				// expr is known: what happened to it before this point no longer enters later queries
+				if strings.HasPrefix(text, "forget pen ") {
+					cl.Forget = "pen"
+					text = strings.TrimSpace(strings.TrimPrefix(text, "forget pen "))
+				}
+				// cut "..." assume label: expr -- reason : an assumption stated at that point (listed with the assumptions)
+				if strings.HasPrefix(text, "assume ") {
+					cl.Forget = "assume"
+					text = strings.TrimSpace(strings.TrimPrefix(text, "assume "))
+					if j := strings.Index(text, " -- "); j >= 0 {
+						pc.Assumes = append(pc.Assumes, cur.Key()+": at \""+cl.Anchor+"\": "+text)
+						text = text[:j]
+					} else {
+						return errf("cut ... assume label: expr -- reason")
+					}
+				}
+			case "deterministic":
+				// deterministic <ufun>: the result is a fixed function of the arguments, named <ufun> in specifications (assumed)
+				cur.Deterministic = strings.TrimSpace(text)
+				pc.Assumes = append(pc.Assumes, cur.Key()+": deterministic -- its result is a fixed function of its arguments (named "+cur.Deterministic+")")
+				continue
+			case "uses":
+				// uses <callee>: label, label -- at calls of <callee> (local key, same package) only the named postconditions
+				// are assumed; the others are not needed here and would only enlarge the queries
+				j := strings.Index(text, ":")
+				if j < 0 {
+					return errf("uses <callee>: label, ...")
+				}
+				if cur.Uses == nil {
+					cur.Uses = map[string][]string{}
+				}
+				k := strings.TrimSpace(text[:j])
+				for _, f := range strings.FieldsFunc(text[j+1:], func(r rune) bool { return r == ',' || r == ' ' }) {
+					cur.Uses[k] = append(cur.Uses[k], f)
+				}
+				continue
 			case "mapcontents":
 				// mapcontents m1, m2 | *  -- lookups in these init-only maps are expanded over the literal's entries
 				for _, f := range strings.FieldsFunc(text, func(r rune) bool { return r == ',' || r == ' ' }) {
@@ -737,7 +804,23 @@ func (pc *PkgContracts) parseBlock(body, file string, line0 int) error {
 				cur.Overflow = true
 				continue
 			case "tokens":
+				// tokens [cursor]: with "cursor" the terminal's cursor position is tracked as well (CUP sets it, text moves it)
 				cur.Tokens = true
+				if strings.TrimSpace(text) == "cursor" {
+					cur.Cursor = true
+				}
+				continue
+			case "nolocal":
+				// nolocal: do not try the local (history-free) queries for this function: its loops and exits lean on
+				// facts established before the loops, and the attempts only cost time
+				cur.NoLocal = true
+				continue
+			case "ownghosts":
+				// ownghosts -- reason: the ghost fields this function changes belong to objects it allocates itself
+				// (ASSUMED; e.g. a buffer obtained from a constructor outside the module): for the caller they keep
+				// their values on every object that existed before the call
+				cur.OwnGhosts = true
+				pc.Assumes = append(pc.Assumes, cur.Key()+": ownghosts "+text)
 				continue
 			case "vocab":
 				// vocab <label>: handles <producer func key>
